@@ -429,6 +429,9 @@ def binop(ex, l, op, r):
     if isinstance(l, VPos) and isinstance(r, VInt) and r.const() is not None and isinstance(op, (ast.Add, ast.Sub)):
         d = r.const() if isinstance(op, ast.Add) else -r.const()
         return VPos(l.seq, l.elem, l.offset + d)
+    if isinstance(op, ast.MatMult) and isinstance(l, VNode):
+        # node @ S is Variable.__matmul__ = self.intervene(S)
+        return call_method(ex, l, "intervene", [r], {})
     if isinstance(op, ast.BitOr) and isinstance(l, VFunc) and isinstance(r, VFunc):
         return VTuple([l, r])     # type union in isinstance(x, A | B)
     if isinstance(op, ast.BitOr) and isinstance(l, VTuple) and isinstance(r, VFunc):
@@ -1007,6 +1010,24 @@ def combinations2(ex, src):
     """combinations(S, 2): each unordered pair of distinct elements exactly once, in an unspecified orientation
     (the iteration order of S); for a sequence the orientation is the sequence order."""
     L = ex.L
+    if isinstance(src, VFam):
+        # a set of frozensets: pairs of different member sets (members are indexed; two indices may name the same set, which
+        # a Python set holds once -- hence `different as sets`), each unordered pair once in an unspecified orientation
+        fam = src
+        diff = lambda a, b: L.exists(1, lambda x: fam.mem(a, x) != fam.mem(b, x))
+        o = param_pred(ex, "famcomb", 2, [
+            lambda o: L.forall(2, lambda a, b: L.Implies(o(a, b), L.And(fam.idx(a), fam.idx(b), diff(a, b)))),
+            lambda o: L.forall(2, lambda a, b: L.Implies(L.And(fam.idx(a), fam.idx(b), diff(a, b)),
+                                                         L.exists(2, lambda c, d: L.And(L.Or(L.And(o(c, d)), L.F()), L.Or(
+                                                             L.And(L.Not(diff(a, c)), L.Not(diff(b, d))), L.And(L.Not(diff(a, d)), L.Not(diff(b, c)))))))),
+        ])
+        r1, r2 = L.node("w1"), L.node("w2")
+        c = VComp(None, None, None, kind="gen")
+        c.alts = [([r1, r2], o(r1, r2), VTuple([VSet(lambda x, r=r1: fam.mem(r, x), kind="frozenset", owned=False),
+                                                  VSet(lambda x, r=r2: fam.mem(r, x), kind="frozenset", owned=False)]))]
+        ex.assumption_notes.add("combinations(F, 2) over a set of frozensets: every unordered pair of different member sets at least once, in an unspecified orientation "
+                                "(multiplicity is not modelled: the consumers build sets)")
+        return c
     if isinstance(src, VSeq):
         return VSet(lambda a, b: L.And(src.mem(a), src.mem(b), src.before(a, b)), arity=2, kind="list")
     s = ex.as_set(src)
